@@ -54,6 +54,9 @@ type behaviour struct {
 
 const protoName = "verif/shuffle"
 
+// families with few cases per permutation are never sampled away for small k (quick tier)
+var rareFamily = map[string]bool{"gen": true, "ident": true, "reprove": true, "trunczero": true, "oppXY": true, "kshiftX": true, "simboth": true, "honestlib": true}
+
 func Run(cfg Config, res *core.Result) error {
 	var bhs []behaviour
 	err := core.ReadLines(cfg.In, func(line []byte) error {
@@ -115,7 +118,7 @@ func Run(cfg Config, res *core.Result) error {
 		var w *world
 		for i := tk.lo; i < tk.hi; i++ {
 			bh := bhs[i]
-			if core.Hash64(fmt.Sprint(cfg.Seed), tk.suite, bh.raw) > keep {
+			if !(rareFamily[bh.steps[2].F] && bh.steps[0].K <= 3 && bh.steps[0].NQ <= 2) && core.Hash64(fmt.Sprint(cfg.Seed), tk.suite, bh.raw) > keep {
 				continue
 			}
 			r := &replayer{cfg: cfg, res: res, s: st, bh: bh}
@@ -194,11 +197,13 @@ func cp2(l [][]kyber.Point) [][]kyber.Point {
 }
 
 func newWorld(s *suites.S, setup Step, pi1 []int, res *core.Result) (*world, error) {
-	return newWorldGen(s, setup, pi1, res, 1)
+	return newWorldGen(s, setup, pi1, res, 1, 0)
 }
 
 // newWorldGen: gen = 1 standard base, 2 a known multiple of it, 3 a picked point as the generator G of the whole run
-func newWorldGen(s *suites.S, setup Step, pi1 []int, res *core.Result, gen int) (*world, error) {
+// ident: 0 random inputs; slot 0 of every sequence gets 1: X = O (blinding factor 0), 2: Y = O (message -r*H),
+// 3: message O (Y = r*H); simple shuffle: x_0 = 0
+func newWorldGen(s *suites.S, setup Step, pi1 []int, res *core.Result, gen, ident int) (*world, error) {
 	w := &world{s: s, kind: setup.Kind, k: setup.K, nq: setup.NQ}
 	w.pi = make([]int, len(pi1))
 	for j, p := range pi1 {
@@ -222,6 +227,9 @@ func newWorldGen(s *suites.S, setup Step, pi1 []int, res *core.Result, gen int) 
 		for i := range w.x {
 			w.x[i] = s.NonZeroScalar()
 		}
+		if ident == 1 {
+			w.x[0] = s.Scalar().Zero()
+		}
 		for j := range w.y {
 			w.y[j] = s.Scalar().Mul(w.gamma, w.x[w.pi[j]])
 		}
@@ -234,6 +242,16 @@ func newWorldGen(s *suites.S, setup Step, pi1 []int, res *core.Result, gen int) 
 		w.X[q], w.Y[q] = make([]kyber.Point, w.k), make([]kyber.Point, w.k)
 		for i := 0; i < w.k; i++ {
 			w.m[q][i], w.r[q][i] = s.NonZeroScalar(), s.NonZeroScalar()
+			if i == 0 {
+				switch ident {
+				case 1:
+					w.r[q][i] = s.Scalar().Zero()
+				case 2:
+					w.m[q][i] = s.Scalar().Neg(s.Scalar().Mul(w.r[q][i], w.h))
+				case 3:
+					w.m[q][i] = s.Scalar().Zero()
+				}
+			}
 			w.X[q][i] = s.Point().Mul(w.r[q][i], w.G)
 			w.Y[q][i] = s.Point().Add(s.Point().Mul(w.r[q][i], w.H), s.Point().Mul(w.m[q][i], w.G))
 		}
@@ -485,15 +503,19 @@ func (r *replayer) run(w *world) error {
 		return fmt.Errorf("harness: transcript layout of %s (k=%d) is %d bytes, the library produced %d - refinement mapping out of date", w.kind, w.k, w.totalLen(), len(w.prf))
 	}
 	adv, ver := r.bh.steps[2], r.bh.steps[3]
-	if adv.F == "gen" {
-		// the honest case over another generator: a world of its own
+	if adv.F == "gen" || adv.F == "ident" {
+		// the honest case over another generator / over inputs with a neutral component: a world of its own
 		pi1 := make([]int, len(w.pi))
 		for j, p := range w.pi {
 			pi1[j] = p + 1
 		}
-		w2, err := newWorldGen(r.s, r.bh.steps[0], pi1, r.res, adv.A)
+		gen, ident := adv.A, 0
+		if adv.F == "ident" {
+			gen, ident = 1, adv.A
+		}
+		w2, err := newWorldGen(r.s, r.bh.steps[0], pi1, r.res, gen, ident)
 		if err != nil {
-			r.violate("prove-error", "the honest shuffle / prover fails over a generator other than the standard base", map[string]any{"err": err.Error(), "generator_class": adv.A})
+			r.violate("prove-error", "the honest shuffle / prover fails over a generator other than the standard base or on inputs with a neutral component", map[string]any{"err": err.Error(), "class": adv.A})
 			return nil
 		}
 		w = w2
@@ -517,7 +539,7 @@ func (r *replayer) run(w *world) error {
 	certify := true
 	unw := false
 	switch adv.F {
-	case "none", "gen":
+	case "none", "gen", "ident":
 	case "honestlib":
 		xb, yb, prover := shuffle.Shuffle(s, G, H, X[0], Y[0], s.RandomStream())
 		p, err := proof.HashProve(s, protoName, prover)
@@ -530,6 +552,10 @@ func (r *replayer) run(w *world) error {
 		Xb[q][adv.A-1], _ = s.AlterPoint(Xb[q][adv.A-1])
 	case "replaceY":
 		Yb[q][adv.A-1], _ = s.AlterPoint(Yb[q][adv.A-1])
+	case "oppXY":
+		D := s.Point().Mul(s.NonZeroScalar(), G)
+		Xb[q][adv.A-1] = s.Point().Add(Xb[q][adv.A-1], D)
+		Yb[q][adv.A-1] = s.Point().Sub(Yb[q][adv.A-1], D)
 	case "comptamper":
 		var err error
 		Xb, Yb, prf, err = r.biffleTamper(w, adv.A, adv.B)
@@ -548,7 +574,7 @@ func (r *replayer) run(w *world) error {
 		two := s.Scalar().SetInt64(2)
 		Xb[q][adv.A-1] = s.Point().Mul(two, Xb[q][adv.A-1])
 		Yb[q][adv.A-1] = s.Point().Mul(two, Yb[q][adv.A-1])
-	case "dup", "sum", "swapXY", "swapX", "kshift":
+	case "dup", "sum", "swapXY", "swapX", "kshift", "kshiftX", "oppXYcross":
 		q = 0
 		if w.kind == "seq" {
 			q = 0 // pair families carry (j, j2); on sequences they act on the first sequence
@@ -567,6 +593,19 @@ func (r *replayer) run(w *world) error {
 			Yb[q][j], Yb[q][j2] = Yb[q][j2], Yb[q][j]
 		case "swapX":
 			Xb[q][j], Xb[q][j2] = Xb[q][j2], Xb[q][j]
+		case "oppXYcross":
+			D := s.Point().Mul(s.NonZeroScalar(), G)
+			Xb[q][j] = s.Point().Add(Xb[q][j], D)
+			Yb[q][j2] = s.Point().Sub(Yb[q][j2], D)
+		case "kshiftX":
+			// the kernel shift on the first components only
+			sig := r.readScalars(w, prf, 8)
+			P := s.Point().Mul(s.NonZeroScalar(), G)
+			if w.kind == "seq" {
+				P = s.Point().Mul(s.Scalar().Inv(w.e[0]), P)
+			}
+			Xb[q][j] = s.Point().Add(Xb[q][j], s.Point().Mul(sig[j2], P))
+			Xb[q][j2] = s.Point().Sub(Xb[q][j2], s.Point().Mul(sig[j], P))
 		case "kshift":
 			// anyone holding the public proof: read sigma (Zsigma) from it, shift two outputs by offsets in its kernel
 			sig := r.readScalars(w, prf, 8)
@@ -592,6 +631,10 @@ func (r *replayer) run(w *world) error {
 		prf, unw = r.mutate(w, prf, adv.A-1, adv.B)
 	case "trunc":
 		prf = prf[:w.msgBoundary(adv.A)]
+	case "truncbytes":
+		prf = prf[:len(prf)-adv.A]
+	case "trunczero":
+		prf, unw = zeroTail(s, func() ([]byte, error) { return proof.HashProve(s, protoName, w.prover) }, w.totalLen())
 	case "splice":
 		cut := w.msgBoundary(adv.A)
 		prf = append(append([]byte(nil), w.prf[:cut]...), w.prf2[cut:]...)
@@ -840,6 +883,10 @@ func (r *replayer) runSimple(w *world, adv, ver Step) error {
 		prf, unw = r.mutate(w, prf, adv.A-1, adv.B)
 	case "trunc":
 		prf = prf[:w.msgBoundary(adv.A)]
+	case "truncbytes":
+		prf = prf[:len(prf)-adv.A]
+	case "trunczero":
+		prf, unw = zeroTail(s, prove, w.totalLen())
 	case "splice":
 		p2, err := prove()
 		if err != nil {
@@ -864,6 +911,28 @@ func (r *replayer) runSimple(w *world, adv, ver Step) error {
 	err = proof.HashVerify(s, protoName, func(ctx proof.VerifierContext) error { return vs.Verify(G, Gamma, ctx) }, prf)
 	r.judge(w, adv, ver, err)
 	return nil
+}
+
+// zeroTail re-runs an honest prover (fresh randomness each time) until the proof ends in 0x00 and returns it cut by
+// exactly its trailing zero bytes (at most one byte short of the whole last scalar). One proof in 16 qualifies on
+// Ed25519 (little-endian, top byte < 16), one in 256 on the big-endian suites, where fewer attempts are affordable.
+func zeroTail(s *suites.S, prove func() ([]byte, error), total int) ([]byte, bool) {
+	tries := 40
+	if s.Name == "ed25519" {
+		tries = 80
+	}
+	for t := 0; t < tries; t++ {
+		q, err := prove()
+		if err != nil || len(q) != total || q[len(q)-1] != 0 {
+			continue
+		}
+		z := 0
+		for z < s.ScalarLen()-1 && q[len(q)-1-z] == 0 {
+			z++
+		}
+		return append([]byte(nil), q[:len(q)-z]...), false
+	}
+	return nil, true
 }
 
 // ---------------------------------------------------------------- one forger per verification equation
